@@ -5,7 +5,7 @@
   ops:   reset | begin t:<tid>|n:<now> <status> <u> <d> <e> | store <oid> <serial> <data>
          delete <oid> <serial> | restore <oid> <serial> <data|None> <prevtxn|None> | undo <tid>
          vote | finish | abort | reopen | state
-         qall oids=a,b bounds=.. serials=.. hsizes=.. windows=f:l,.. fwindows=user:f:l,.. iters=s:e,.. linv=..
+         qall oids=a,b bounds=.. serials=.. hsizes=.. windows=f:l,.. fwindows=user:f:l,.. swindows=u:d:e:f:l,.. iters=s:e,.. linv=..
   The answer of `qall` is one line of ` | `-separated `query=answer` segments.
   The same process also drives the MappingStorage model (`ZodbModel/Mapping.lean`):
          m.reset | m.begin t:<tid>|n:<now> <u> <d> <e> | m.store <oid> <serial> <data> | m.finish | m.abort
@@ -88,6 +88,24 @@ def tripleList (s : String) : List (String × String × String) :=
     | [a, b, c] => some (a, b, c)
     | _ => none
 
+/-- `u:d:e:first:last`, `*` = key not in the specification -/
+def specList (s : String) : List (String × String × String × String × String) :=
+  (parseList s).filterMap fun p => match p.splitOn ":" with
+    | [a, b, c, d, e] => some (a, b, c, d, e)
+    | _ => none
+
+def parseOpt (s : String) : Option (Option Bytes) :=
+  if s = "*" then some none else (parseBytes s).map some
+
+def specOk (o : Option Bytes) (b : Bytes) : Bool :=
+  match o with
+  | none => true
+  | some x => b == x
+
+def showOpt : Option Bytes → String
+  | none => "*"
+  | some b => showBytes b
+
 def showHist (e : HistEntry) : String :=
   hexN 8 e.tid ++ "," ++ showBytes e.user ++ "," ++ showBytes e.desc ++ "," ++ showBytes e.ext ++ "," ++
     toString e.size
@@ -134,6 +152,7 @@ def qall (s : FS) (toks : List String) : String :=
   let windows := pairList (arg toks "windows")
   let iters := pairList (arg toks "iters")
   let fwindows := tripleList (arg toks "fwindows")
+  let swindows := specList (arg toks "swindows")
   let linv := natList (arg toks "linv")
   let segs : List String :=
     ["lastTransaction=" ++ hexN 8 (lastTransaction s)] ++
@@ -161,6 +180,14 @@ def qall (s : FS) (toks : List String) : String :=
          "undoLogF(" ++ showBytes u ++ "," ++ w.2.1 ++ "," ++ w.2.2 ++ ")=[" ++
            joinWith ";" ((undoLogF s (fun e => e.user == u) f l).map showUndo) ++ "]"
        | _, _, _ => "undoLogF=bad-arg")) ++
+    swindows.map (fun w =>
+      (match parseOpt w.1, parseOpt w.2.1, parseOpt w.2.2.1, w.2.2.2.1.toNat?, w.2.2.2.2.toNat? with
+       | some u, some d, some x, some f, some l =>
+         "undoInfoS(" ++ showOpt u ++ "," ++ showOpt d ++ "," ++ showOpt x ++ "," ++ w.2.2.2.1 ++ "," ++
+           w.2.2.2.2 ++ ")=[" ++
+           joinWith ";" ((undoLogF s (fun e => specOk u e.user && specOk d e.desc && specOk x e.ext) f l).map
+             showUndo) ++ "]"
+       | _, _, _, _, _ => "undoInfoS=bad-arg")) ++
     iters.map (fun w =>
       "iterator(" ++ w.1 ++ "," ++ w.2 ++ ")=" ++
         (match parseONat w.1, parseONat w.2 with
